@@ -72,16 +72,32 @@ def prepare(case, sent_index=0):
     return ev
 
 
+def warmup_sentences(sent, k):
+    """k sentences made from the case's own sentence (no extra tape): its rows in reverse order, and its first
+    token alone.  They are parsed in the same call before the sentence under test, so that the sentence is not the
+    first one its call sees (configuration, caches and category table have been used already)."""
+    n = len(sent['words'])
+    out = [{'words': [f'v{i}' for i in range(n)], 'tag': [list(r) for r in reversed(sent['tag'])],
+            'dep': [list(r) for r in sent['dep']]},
+           {'words': ['u0'], 'tag': [list(sent['tag'][0])], 'dep': [list(sent['dep'][0][:2])]}]
+    return out[:k]
+
+
 def execute(ev, case, want_pops=False):
     """run the real parser on the prepared sentence"""
     sent = ev.sent
+    warm = warmup_sentences(sent, int(case.get('warmup') or 0))
     try:
-        if want_pops:
+        if want_pops and not warm:
             with native.PopTrace() as tr:
                 results, docs, faults = native.run_parser(case, ev.grammar, sentences=[sent])
             ev.pops = tr.pops if tr.enabled else None
         else:
-            results, docs, faults = native.run_parser(case, ev.grammar, sentences=[sent])
+            # (the pop trace has no sentence boundaries: it is taken only when the sentence is alone in its call)
+            results, docs, faults = native.run_parser(case, ev.grammar, sentences=warm + [sent],
+                                                      max_chunk_size=max(20, len(warm) + 1))
+            if len(results) == len(warm) + 1:
+                results, docs = results[len(warm):], docs[len(warm):]
     except Exception as ex:  # the parser itself raised
         ev.exception = ex
         return ev
